@@ -53,7 +53,7 @@ impl Report {
     }
     /// one rule instance examined and violated (deduplicated by key)
     pub fn fail(&mut self, rule: &str, role: &str, instance: &str, msg: &str, site: &str, detail: Value) {
-        let key = format!("{rule}|{role}|{instance}");
+        let key = format!("{rule}|{role}|{instance}").replace(' ', "_");
         self.obligations += 1;
         self.by_rule.entry(rule.to_string()).or_insert((0, 0)).0 += 1;
         if !self.seen_keys.insert(key.clone()) { return; }
